@@ -125,8 +125,10 @@ def parseByType (ty : String) (text : String) : Option String :=
   | "mr" => some (resStr showMRRec (Text.parseMR s))
   | "stats" => some (resStr (fun (x : Text.StatsRec) => showNats [x.added, x.removed, x.executed, x.qty, x.value, x.last, x.first, x.wait]) (Text.parseStats s))
   | "snap" => some (resStr (fun (x : Text.SnapSummary) => showNats [x.price, x.vis, x.hid, x.cnt]) (Text.parseSnap s))
-  | "queue" => some (resStr (fun os => showList showOrder (canonSort os)) (Text.parseQueue s))
-  | "level" => some (resStr (fun (x : Nat × List Order) => toString x.1 ++ ";" ++ showList showOrder (canonSort x.2)) (Text.parseLevel s))
+  -- the crate pushes the parsed orders one by one into a queue / adds them to a level: an id that occurs twice in
+  -- the text is stored once (the later element replaces the earlier), so the listing is that of the level built
+  | "queue" => some (resStr (fun os => showList showOrder (canonSort (Level.fromOrders 0 os).listing)) (Text.parseQueue s))
+  | "level" => some (resStr (fun (x : Nat × List Order) => toString x.1 ++ ";" ++ showList showOrder (canonSort (Level.fromOrders x.1 x.2).listing)) (Text.parseLevel s))
   | _ => none
 
 end PLV.TextProto
